@@ -35,14 +35,32 @@ NextTree == /\ tree.j = "obj" /\ Len(tree.mem) < MaxLen
                   /\ tree' = JObj(Append(tree.mem, <<n, x>>))
             /\ UNCHANGED text
 
-Init == IF Mode = "text" THEN InitText ELSE InitTree
-Next == IF Mode = "text" THEN NextText ELSE NextTree
+\* Escape family: opener, one escape (every \uXXXX over the digits that sit on the boundaries of the BMP, the
+\* surrogate block and the hex alphabet in both cases; every two-character escape, legal or not; truncated
+\* escapes), a tail (nothing, a second escape forming or not forming a surrogate pair, a plain character)
+\* and the matching closer or none - in a Str, a Uri, a Ref display name, an XStr, a list, a dict and a grid cell.
+H1 == {48, 55, 68, 100, 69, 70}                  \* 0 7 D d E F
+H2 == {48, 55, 56, 66, 98, 67, 70}               \* 0 7 8 B b C F
+H3 == {48, 70}                                   \* 0 F
+H4 == {48, 70, 102, 103}                         \* 0 F f g
+Escs == {<<92, 117, a, b, c, d>> : a \in H1, b \in H2, c \in H3, d \in H4}
+        \cup {<<92, x>> : x \in {98, 102, 110, 114, 116, 34, 92, 36, 96, 58, 47, 120, 85, 48, 233, 10}}
+        \cup {<<92>>, <<92, 117>>, <<92, 117, 68>>, <<92, 117, 68, 56>>, <<92, 117, 68, 56, 48>>, <<92, 117, 233, 48, 48, 48>>}
+Tails == {<<>>, <<92, 117, 68, 67, 48, 48>>, <<92, 117, 100, 102, 102, 102>>, <<92, 117, 68, 56, 48, 48>>, <<97>>, <<92, 110>>}
+Frames == {<<<<34>>, <<34>>>>, <<<<34>>, <<>>>>, <<<<96>>, <<96>>>>, <<<<96>>, <<>>>>,
+           <<K("@a \""), <<34>>>>, <<K("X(\""), K("\")")>>, <<K("[\""), K("\"]")>>, <<K("{a:\""), K("\"}")>>, <<K("{a:`"), K("`}")>>,
+           <<K("ver:\"3.0\"") \o <<10, 97, 10, 34>>, <<34, 10>>>>}
+InitEsc == /\ tree = JNull
+           /\ text \in {f[1] \o e \o t \o f[2] : f \in (IF MaxLen >= 4 THEN Frames ELSE {f \in Frames : Len(f[1]) = 1}), e \in Escs, t \in Tails}
+
+Init == CASE Mode = "text" -> InitText [] Mode = "esc" -> InitEsc [] OTHER -> InitTree
+Next == CASE Mode = "text" -> NextText [] Mode = "esc" -> UNCHANGED vars [] OTHER -> NextTree
 Spec == Init /\ [][Next]_vars
 
 \* totality of the specification's own readers
-ReaderTotal == IF Mode = "text" THEN ZincRead(text).ok \in BOOLEAN ELSE HaysonRead(tree).ok \in BOOLEAN
+ReaderTotal == IF Mode \in {"text", "esc"} THEN ZincRead(text).ok \in BOOLEAN ELSE HaysonRead(tree).ok \in BOOLEAN
 \* an accepted text is consumed entirely and reading is deterministic (same result twice)
 Emit == EmitVectors =>
-          IF Mode = "text" THEN PrintT("VEC " \o ToJson([op |-> "dec.zinc", text |-> text, src |-> "enum"]))
+          IF Mode \in {"text", "esc"} THEN PrintT("VEC " \o ToJson([op |-> "dec.zinc", text |-> text, src |-> "enum"]))
           ELSE PrintT("VEC " \o ToJson([op |-> "dec.json.tree", tree |-> tree, src |-> "enum"]))
 =============================================================================
